@@ -1421,8 +1421,12 @@ func (rn *smRunner) run(b smBehaviour) {
 				}
 			}
 			if quorum && decides[[2]uint64{k.H, uint64(k.R)}] == 0 && !restartedSince(b.Steps, i) {
-				rn.viol(b.ID, i, "C08", "PrecommitExactlyOnceWhenDue", s.Op, "never:"+k.S,
-					fmt.Sprintf("in %d/%d (step %s) the state machine has prevoted and sees a prevote quorum, but never asked the strategy for its precommit", k.H, k.R, k.S))
+				cls, who := "never:"+k.S, "the state machine"
+				if rn.me == 0 {
+					cls, who = cls+":follower", "the state machine (no signer: it follows without voting)"
+				}
+				rn.viol(b.ID, i, "C08", "PrecommitExactlyOnceWhenDue", s.Op, cls,
+					fmt.Sprintf("in %d/%d (step %s) %s has prevoted and sees a prevote quorum, but never asked the strategy for its precommit", k.H, k.R, k.S, who))
 			}
 		}
 		// timer discipline (C12a)
